@@ -364,16 +364,16 @@ Section Sim.
     forall k p p', N.to_nat (len - p) = k -> R p p' ->
     prune g toks' opts len' p' = prune g toks opts len p.
   Proof.
-    intros Hl. induction k as [k IH] using lt_wf_ind. intros p p' Hk Hp.
+    (* since the repair of [first_non_whitespace] pruning looks at a code token standing at the index
+       only: related positions hold the same significant token, or a gap token (not code) each *)
+    intros Hl k p p' _ Hp.
     unfold prune. rewrite (first_nonws_eq toks), (first_nonws_eq toks'). rcmp.
     destruct (p <? len) eqn:E; [|reflexivity]. apply N.ltb_lt in E.
     destruct (R_fwd _ _ Hp) as [En En'|t Et Et' Hn|q q' Hr Hr' Hq Hno Hno'].
     - rewrite En, En'. reflexivity.
-    - rewrite Et, Et'. destruct (p_fnw t); [reflexivity|].
-      apply (IH (N.to_nat (len - (p + 1)))); [lia|reflexivity|exact Hn].
+    - rewrite Et, Et'. reflexivity.
     - destruct (grun_first g toks _ _ Hr) as (t & Et & Hok). destruct (grun_first g toks' _ _ Hr') as (t' & Et' & Hok').
-      rewrite Et, Et'. destruct (okgap_fnw g t Hok) as [r Er]. destruct (okgap_fnw g t' Hok') as [r' Er'].
-      rewrite Er, Er'. apply (prune_aux_blind g t' r' Hok' Er' t r Hok Er).
+      rewrite Et, Et'. rewrite (okgap_code g t Hok), (okgap_code g t' Hok'). reflexivity.
   Qed.
 
   (* ---------------------------------------------------------------- allowable_scan *)
